@@ -4,6 +4,7 @@
 //	             and repeated fields, non-minimal varints in tags / lengths / values, split sub-messages, wrong wire types,
 //	             unknown fields, truncations, byte flips) go through the real lib.Unmarshal / lib.Marshal / GetSignBytes; Coq
 //	             decodes the same bytes with model/Proto.v and compares the decoded transaction, canonicity and sign bytes.
+//	rlp mode   : nonce-based Ethereum-wrapped transactions (memo RLP.V2) on a real chain: see rlp.go.
 //	chain mode : a real chain (fsm.StateMachine over a real store); transactions are included, and at later heights (inside and
 //	             outside the acceptance window) the harness offers the identical bytes, content-preserving re-encodings, the other
 //	             representation of an ETH public key, and the same transactions to a node of another chain / network id; whether
@@ -241,6 +242,7 @@ func main() {
 	nProto := flag.Int("proto", 400, "proto mode: byte strings")
 	nChains := flag.Int("chains", 3, "chain mode: chains")
 	nBlocks := flag.Int("blocks", 14, "chain mode: blocks per chain")
+	nRlp := flag.Int("rlp", 60, "rlp mode: offers of nonce-based transactions per chain")
 	outDir := flag.String("outdir", ".", "output directory")
 	_ = flag.String("replay", "", "replay file (cases regenerate deterministically from the seed)")
 	flag.Parse()
@@ -284,6 +286,12 @@ func main() {
 		chainMode(r.Fork(), *nBlocks, w2)
 	}
 	w2.Close(st)
+	// ---- rlp mode: nonce-based transactions
+	w3 := &sim.CaseWriter{OutDir: *outDir, Name: "c06rlp", Imports: "From V Require Import Nonce.", CaseType: "ncase", MFun: "nonce_mismatches", VFun: "nonce_violations", PerShard: 200}
+	for c := 0; c < *nChains; c++ {
+		rlpMode(r.Fork(), *nRlp, w3)
+	}
+	w3.Close(st)
 	fmt.Printf("c06: %d cases; proto outcomes %v; chain outcomes %v; mutators %d kinds\n", st.Cases, st.Decoded, st.Chain, len(st.Mutators))
 }
 
